@@ -56,11 +56,18 @@ def assign_canonical_labels(m: nx.Graph) -> dict[int, int]:
     """
 
     m_igraph = iGraph.from_networkx(m)
-    old_labels = m_igraph.vs["_nx_name"]
     partitions = m_igraph.vs[PARTITION]
-    canonical_labels = m_igraph.canonical_permutation(color=partitions)
+    canonical_permutation = m_igraph.canonical_permutation(color=partitions)
+    # Let igraph apply its own permutation vector. The index/value convention of
+    # that vector differs between igraph < 1.0 and >= 1.0, whereas
+    # `permute_vertices(canonical_permutation(...))` yields the canonical graph
+    # in both.
+    m_igraph_canonical = m_igraph.permute_vertices(canonical_permutation)
 
-    return dict(zip(old_labels, canonical_labels))
+    return {
+        old_label: canonical_label
+        for canonical_label, old_label in enumerate(m_igraph_canonical.vs["_nx_name"])
+    }
 
 
 def canonicalize_molecule(m: nx.Graph) -> nx.Graph:
